@@ -51,7 +51,10 @@ public:
 
   double randC() const
   {
-    return RandomTools::randGaussian(mu_, sigma_ * sigma_);
+    double x = RandomTools::randGaussian(mu_, sigma_ * sigma_);
+    while (!intMinMax_->isCorrect(x))
+      x = RandomTools::randGaussian(mu_, sigma_ * sigma_);
+    return x;
   }
 
   double qProb(double x) const;
